@@ -455,6 +455,23 @@ def run(case, ctx):
         if kind in ("close", "with", "with_raise"):
             if not dead:
                 check(exc is None, "close-failed", repr(exc), **where)
+            if kind == "with" and exc is None and res is not None:
+                # the body of the block: on a view closed (or freed) before
+                # the block nothing works - entering a block does not bring
+                # a closed view back; on an open view the body sees it as
+                # it was
+                ctx.hit("inside_with_block")
+                if dead:
+                    check(all(r[0] == "raised" for r in res),
+                          "operation-on-closed-view-succeeded",
+                          "inside a with-block entered on a %s view: "
+                          "tell() / read(0) gave %r" %
+                          ("freed" if freed else "closed", res), **where)
+                elif 0 <= v.pos <= len(v):
+                    check(res[0] == ("ok", v.pos) and res[1] == ("ok", b""),
+                          "inside-with-block",
+                          "tell() / read(0) inside the block gave %r at "
+                          "position %d" % (res, v.pos), **where)
             v.closed = v.closed or exc is None
             if kind.startswith("with") and not freed:
                 check(v.obj.closed, "with-block-left-view-open", "", **where)
@@ -644,10 +661,18 @@ def do(op, v, views, mcm):
     if kind == "close":
         return o.close()
     if kind == "with":
+        inside = []
         with o as inner:
             if inner is not o:
                 raise AssertionError("__enter__ returned another object")
-        return None
+            # what the block's body sees: the position, and whether data
+            # operations are possible at all
+            for f in (inner.tell, lambda: inner.read(0)):
+                try:
+                    inside.append(("ok", f()))
+                except Exception as e:
+                    inside.append(("raised", type(e).__name__))
+        return inside
     if kind == "with_raise":
         # the block is left by an exception: the view is closed all the same
         try:
